@@ -4,7 +4,7 @@
 From ClapModel Require Import Base.Bytes Base.Machine.
 From ClapModel Require Import Parse.Cmd Parse.Build Parse.Errors Parse.Parser.
 From ClapModel Require Import Reentrancy.ReentrancyModel Reentrancy.ReentrancyProofs Reentrancy.ReentrancyParse.
-From ClapModel Require Import Reentrancy.ReentrancyDym Reentrancy.ReentrancyGlobals Reentrancy.ReentrancyMsg.
+From ClapModel Require Import Reentrancy.ReentrancyDym Reentrancy.ReentrancyGlobals Reentrancy.ReentrancyMsg Reentrancy.ReentrancyBuild.
 From ClapModel Require Import Parse.Valid Parse.Matcher ParseProofs.Dispatch.
 From Coq Require Import List.
 From RecordUpdate Require Import RecordSet.
@@ -258,3 +258,32 @@ Theorem C11_bin_name_is_usage_name : forall p s,
   \/ (c_bin_name p = None /\ c_bin_name (prepare p s) = Some (c_name s)).
 Proof. exact prepared_bin_is_usage_name_plain. Qed.
 Print Assumptions C11_bin_name_is_usage_name.
+
+(** ---- third pass (4), PARTIAL: histories containing [build()].  The recorded finding
+    C11-help-tree-after-build is delimited as a boolean family of DEFINITIONS: it needs a node with an
+    auto-generated help subcommand, i.e. a definition outside [nohelp_tree] (help subcommand disabled at
+    the node and all its subcommands to the given depth).  Full statement (not proved):
+      forall h (may contain Build) b c argv, nohelp_tree (all depths) c = true -> hist under b ->
+        parse_result (run c h) argv = parse_result c argv /\ parse_names ... /\ err_of ...
+    Proved: the tree-building half of [build()], [_build_recursive(true)]; missing:
+    [_build_bin_names_internal] (BinNameBuilt marks make the trees unequal as records). ---- *)
+
+(** inside the class [_build_self(expand_help_tree = true)] is [_build_self(false)] *)
+Theorem C11_expand_irrelevant_without_help_sub : forall c,
+  s_disable_help_sub (c_gset c) = true -> build_self_x true c = build_self c.
+Proof. exact expand_irrelevant. Qed.
+Print Assumptions C11_expand_irrelevant_without_help_sub.
+
+(** building every node beforehand, to any fuel, is absorbed by the normal form at every depth: with
+    [expand_help_tree = false] for every definition, with [true] inside the class *)
+Theorem C11_build_tree_preserves_normal_form_partial : forall n b f e c,
+  (e = true -> nohelp_tree f c = true) ->
+  norm n b (build_recursive_x f e c) = norm n b c.
+Proof. exact build_tree_normal_form. Qed.
+Print Assumptions C11_build_tree_preserves_normal_form_partial.
+
+Theorem C11_build_subtree_preserves_normal_form_partial : forall n f e p sc,
+  (e = true -> nohelp_tree f sc = true) ->
+  norm_sub n p (build_recursive_x f e sc) = norm_sub n p sc.
+Proof. exact norm_sub_build_recursive. Qed.
+Print Assumptions C11_build_subtree_preserves_normal_form_partial.
